@@ -62,6 +62,18 @@ class Plain(Enum):
     Y = "y"
 
 
+class LabeledEnum(Enum):
+    """a project-wide enum base without members (helpers only)"""
+
+    def label(self):
+        return self.name.lower()
+
+
+class Prio(LabeledEnum):
+    LOW = 1
+    HIGH = 2
+
+
 class Perm(enum.Flag):
     """composite values (Perm(6) == R|W) are members although they are not listed"""
     R = 4
